@@ -81,6 +81,17 @@ def models(W, used):
             return ("int", 1 if (b is S.TRUE or b.eq(S.TRUE)) else 0)
         raise Unsupported("usize::from of a symbolic bool")
 
+    def sat_sub(flow, P, callee, args):
+        if flow.is_int(args[0]) and flow.is_int(args[1]):
+            return ("int", max(args[0][1] - args[1][1], 0))
+        raise Unsupported("saturating_sub of symbolic lengths")
+
+    def o_is_some(flow, P, callee, args):
+        o = flow.deref_all(P, args[0])
+        if isinstance(o, tuple) and o[0] == "agg" and o[1].startswith("Option::"):
+            return S.TRUE if o[1].endswith("Some") == callee.endswith("is_some") else S.FALSE
+        raise Unsupported("is_some of %r" % (o,))
+
     def split_at(flow, P, callee, args):
         v = coll(flow, P, args[0])
         if not flow.is_int(args[1]) or args[1][1] > len(v[1]):
@@ -200,6 +211,7 @@ def models(W, used):
         (r"^<Vec<.*> as Deref>::deref$", v_deref),
         (r"^<usize as Ord>::min$|^core::cmp::min::<usize>$|^std::cmp::min::<usize>$", u_min),
         (r"^<usize as From<bool>>::from$", from_bool),
+        (r"num::<impl usize>::saturating_sub$", sat_sub),
         (r"slice::<impl \[.*\]>::split_at$", split_at),
         (r"slice::<impl \[.*\]>::iter$", s_iter),
         (r"as Iterator>::zip::", zip_),
@@ -207,6 +219,7 @@ def models(W, used):
         (r"as IntoIterator>::into_iter$", into_iter),
         (r"as Iterator>::next$", it_next),
         (r"^Option::<.*>::as_ref$", o_as_ref),
+        (r"^Option::<.*>::is_(some|none)$", o_is_some),
         (r"Token::inspect$", inspect),
         (r"^<&erg_common::Str as PartialEq>::eq$|^<Option<&erg_common::Str> as PartialEq>::eq$|^<erg_common::Str as PartialEq>::eq$", str_eq),
         (r"as Iterator>::find::", it_find),
@@ -238,7 +251,7 @@ def shapes(tier):
     return out
 
 
-def program(method, n, variadic, d, k, mut_arg, kws=(), aname=None):
+def program(method, n, variadic, d, k, mut_arg, kws=(), aname=None, qualified=False):
     """a program whose argument `aname` (a<i> positional, k<j> keyword) is a mutable list given for a parameter of mutable type and used afterwards"""
     if variadic:
         return None        # a mutable variadic parameter has no simple declaration form here
@@ -259,6 +272,8 @@ def program(method, n, variadic, d, k, mut_arg, kws=(), aname=None):
     argl = ", ".join(pos + kw)
     if method:
         return ("C = Class {.x = Int}\nC.\n    take! self, %s =\n        %s\nc = C.new {.x = 1}\nv = ![1]\nc.take! %s\nprint! v\n" % (", ".join(params), use, argl))
+    if qualified:       # a class-level procedure without `self`, called through the class: attr_name is Some, is_method_call() is false
+        return ("C = Class {.x = Int}\nC.\n    take! %s =\n        %s\nv = ![1]\nC.take! %s\nprint! v\n" % (", ".join(params), use, argl))
     return "take! %s =\n    %s\nv = ![1]\ntake! %s\nprint! v\n" % (", ".join(params), use, argl)
 
 
@@ -388,7 +403,7 @@ def stage(rep, s, text, tier, only):
                 ob["model"] = {"argument": a, "binds to": what, "but": how}
                 ob.update(verdict=VIOLATED, reason="%s call, %d parameters: argument %s binds to %s but %s: a mutable object passed there is not moved (or an immutable one is)" % (
                     "method" if method else "function", n, a, what, how))
-                pending.append((ob, method, n, variadic, d, k, int(a[1:]), kws, a))
+                pending.append((ob, method, n, variadic, d, k, int(a[1:]), kws, a, key.startswith("qualified-function")))
             else:
                 ob.update(verdict=HELD, reason="on all %d paths every positional argument is passed on with the ownership of the parameter it binds to" % npaths)
             ob["solver_s"] = round(time.time() - t0, 2)
@@ -398,8 +413,8 @@ def stage(rep, s, text, tier, only):
     rep.assumptions += sorted(used) + ["stage 2: well-typed calls (a function call supplies all non-default parameters, a method call all but self); keyword arguments are outside"]
     rs = lambda p: '"%s"' % p.replace("\\", "\\\\").replace('"', '\\"').replace("\n", "\\n")
     cases, progs = [], []
-    for i, (ob, method, n, variadic, d, k, ai, kws, aname) in enumerate(pending):
-        pr = program(method, n, variadic, d, k, ai, kws, aname)
+    for i, (ob, method, n, variadic, d, k, ai, kws, aname, qual) in enumerate(pending):
+        pr = program(method, n, variadic, d, k, ai, kws, aname, qual)
         progs.append(pr)
         if pr:
             cases.append(("b.%d" % i, "nmove(%s)" % rs(pr)))
